@@ -229,8 +229,13 @@ def gen_case(rng, base, stream):
             "schemas": {}, "tdkeys": None}
     # ---- skeleton
     templ = stream == "templated"
+    share = stream == "share"
     if stream == "leak":
         names = ["p", "p/sub", "q"] + (["r"] if r.random() < 0.4 else [])
+    elif share:
+        # all mocks of a package in ONE file, several listed interfaces / configs entries that disagree
+        # on the per-output-file parameters below the package level
+        names = r.choice([["p"], ["q"], ["p", "q"]])
     elif templ:
         # several interfaces per package that are NOT listed (or listed without a config of their own):
         # they all derive their config from the same package-level object
@@ -240,7 +245,7 @@ def gen_case(rng, base, stream):
     r.shuffle(names)
     for rel in names:
         pk = {"config": new_cfg() if r.random() < 0.8 else None, "interfaces": None}
-        k = r.choice([0, 0, 1, 2] if templ else [0, 1, 1, 2, 3])
+        k = r.choice([0, 0, 1, 2] if templ else [2, 3, 3] if share else [0, 1, 1, 2, 3])
         if k:
             pk["interfaces"] = {}
             for name in r.sample(SRC[rel], min(k, len(SRC[rel]))):
@@ -329,7 +334,7 @@ def gen_case(rng, base, stream):
                     c["ptr"][key] = g.marker(key, lv, False)
             continue
         general = kind in ("env", "file", "pkg")
-        ownfile = (not general) and not templ and r.random() < 0.5
+        ownfile = (not general) and not templ and not share and r.random() < 0.5
         for key in PER_MOCK:
             p = {"dir": 0.3, "filename": 0.35, "pkgname": 0.3, "structname": 0.45}[key]
             if templ and general:
@@ -337,22 +342,21 @@ def gen_case(rng, base, stream):
             if ownfile and key == "filename":
                 p = 1.0
             if not general and not ownfile and key != "structname":
-                p = 0.04
+                p = 0.0 if share else 0.04
             if r.random() < p:
                 c["ptr"][key] = g.marker(key, lv, ownfile)
         for key in PER_FILE:
-            p = 0.3 if (general or ownfile) else 0.05
-            if key in ("template-schema", "require-template-schema-exists") and stream != "schema":
+            p = 0.3 if (general or ownfile) else (0.45 if share else 0.05)
+            if share and key == "template" and not general:
+                continue
+            if key in ("template-schema", "require-template-schema-exists") and stream not in ("schema", "share"):
                 p = p / 3
-            if key == "force-file-write" and stream != "force":
+            if key == "force-file-write" and stream not in ("force", "share"):
                 p = p / 2
             if kind == "file" and key == "template":
                 continue
             if r.random() < p:
                 c["ptr"][key] = g.marker(key, lv, ownfile)
-        if "template-schema" in c["ptr"] and kind != "file":
-            g.nprobe = getattr(g, "nprobe", 0) + 1
-            c["ptr"]["template"] = probe_url(base, NPROBE - 1 - (g.nprobe % (NPROBE // 2)))
         if r.random() < 0.15 and kind in ("env", "file"):
             c["ptr"]["log-level"] = g.marker("log-level", lv, False)
         # template-data
@@ -435,11 +439,11 @@ def finish_case(case, base, rng):
     """Stream specific planting that needs the expected plan (pre-existing files, schemas)."""
     exp = expected(case)
     files = exp["files"] if exp["kind"] == "ok" else {}
-    if case["stream"] == "force":
+    if case["stream"] == "force" or (case["stream"] == "share" and rng.random() < 0.6):
         for path in sorted(files):
             if path.startswith("out/") and rng.random() < 0.7:
                 case["existing"].append(path)
-    if case["stream"] == "schema":
+    if case["stream"] == "schema" or (case["stream"] == "share" and rng.random() < 0.5):
         # which schema urls are mentioned; decide which exist / what they reject, and plant rej_ keys
         urls = set()
         for lv, c in all_levels(case):
@@ -807,29 +811,23 @@ def expected(case):
 
 
 def file_outcome(case, ms):
-    """ok / fail / None (the property does not say: the mocks of the file disagree)"""
-    def agreed(key):
-        vals = {json.dumps(m[key], sort_keys=True) for m in ms}
-        return len(vals) == 1
+    """Must the run write this file (True) or refuse it (False)?  The per-output-file parameters are
+    those of the FIRST mock added to the file - the mock that also supplies its pkgname and
+    template - for all of them together: never a later mock's, never a mixture."""
+    first = ms[0]
     verdicts = []
-    if not (ms[0]["template"] in ("matryer", "testify") or re.search(r"/probes/probe_\d+\.templ$", ms[0]["template"])):
+    if not (first["template"] in ("matryer", "testify") or re.search(r"/probes/probe_\d+\.templ$", first["template"])):
         verdicts.append(False)          # no such template (uniform in a file by Append)
-    if agreed("formatter") and ms[0]["formatter"] not in ("goimports", "gofmt", "noop"):
-        verdicts.append(False)
-    if ms[0]["path"] in case["existing"]:
-        if not agreed("force-file-write"):
-            return None
-        verdicts.append(bool(ms[0]["force-file-write"]))
-    if not agreed("require-template-schema-exists"):
-        return None
-    if ms[0]["require-template-schema-exists"]:
-        if not agreed("template-schema"):
-            return None
-        rej = case["schemas"].get(ms[0]["template-schema"])
+    if any(m["formatter"] not in ("goimports", "gofmt", "noop") for m in ms):
+        verdicts.append(False)          # an unknown formatter on any mock of the file is an error
+    if first["path"] in case["existing"]:
+        verdicts.append(bool(first["force-file-write"]))
+    if first["require-template-schema-exists"]:
+        rej = case["schemas"].get(first["template-schema"])
         if rej is None:
             verdicts.append(False)
         else:
-            for m in ms:
+            for m in ms:                # the file-level data (the first mock's) and every mock's data
                 for k in rej:
                     if k in m["td"] and not isinstance(m["td"][k], str):
                         verdicts.append(False)
@@ -929,7 +927,7 @@ def oracle(case, obs):
             errs.append(("exit:must-refuse", "run succeeded but %s" % (exp["why"] or "a file must be refused (existing without force-file-write, or schema): %s"
                                                                           % sorted(p for p, o in outcomes.items() if o is False))))
         return errs
-    if not any(o is None for o in outcomes.values()) and obs["rc"] != 0:
+    if obs["rc"] != 0:
         errs.append(("exit:valid-refused", "run failed (rc=%d) on a valid configuration: %s" % (obs["rc"], obs["stderr_tail"][-300:])))
         return errs
     if obs["rc"] != 0:
@@ -977,19 +975,22 @@ def oracle(case, obs):
             errs.append(("per-mock:pkgname", "%s: package clause %r, expected %r" % (path, f["pkgname"], ms[0]["pkgname"])))
         if not builtin and f["srcpkg"] != ms[0]["pkg"]:
             errs.append(("files", "%s: source package %r, expected %r" % (path, f["srcpkg"], ms[0]["pkg"])))
-        # per-file parameters, where the mocks of the file agree
+        # per-file parameters: those of the first mock added to the file
         want_t = ms[0]["template"]
         got_t = "matryer" if f["probe"] == "matryer" else "probe_%s" % f["probe"]
         if not (want_t == got_t or want_t.endswith("/%s.templ" % got_t)):
             errs.append(("per-file:template", "%s: rendered by %s, the mocks sharing the file say template %s" % (path, got_t, want_t)))
-        if not builtin and len({m["formatter"] for m in ms}) == 1 and f["formatter"] != ms[0]["formatter"]:
-            errs.append(("per-file:formatter", "%s: formatted as %s, the mocks sharing the file say formatter %s" % (path, f["formatter"], ms[0]["formatter"])))
-        tds = {json.dumps(m["td"], sort_keys=True) for m in ms}
-        if len(tds) == 1:
+        disagree = len({m["formatter"] for m in ms}) > 1
+        if not builtin and f["formatter"] != ms[0]["formatter"]:
+            errs.append(("per-file:formatter", "%s: formatted as %s, %s says formatter %s" % (
+                path, f["formatter"], "the first mock of the file (%s, configs entry %d; the mocks disagree: %r)" % (
+                    ms[0]["iface"], ms[0]["idx"], [m["formatter"] for m in ms]) if disagree else "the mocks sharing the file", ms[0]["formatter"])))
+        if True:
             want_td = restrict(ms[0]["td"], case["tdkeys"][0]) if builtin else ms[0]["td"]
             alts = [restrict(a[0], case["tdkeys"][0]) if builtin else a[0] for a in ms[0]["alt"]]
             if not td_acceptable(f["td"], want_td, alts):
-                errs.append(("per-file:template-data", "%s: file-level template-data %r, the mocks sharing the file say %r" % (path, f["td"], want_td)))
+                errs.append(("per-file:template-data", "%s: file-level template-data %r, the first mock of the file (%s, configs entry %d) says %r" % (
+                    path, f["td"], ms[0]["iface"], ms[0]["idx"], want_td)))
         # no leak: every marker seen comes from a level of the mock's own chain
         for m, io in zip(ms, f["ifaces"]):
             allowed = set()
@@ -1272,7 +1273,7 @@ def shrink(ctx, base, case, fails):
 
 
 # ------------------------------------------------------------------ the check
-STREAMS_QUICK = [("main", 95), ("templated", 24), ("conflict", 8), ("malformed", 12), ("schema", 24), ("force", 18), ("leak", 20), ("builtin", 18)]
+STREAMS_QUICK = [("main", 85), ("templated", 22), ("share", 26), ("conflict", 8), ("malformed", 12), ("schema", 20), ("force", 16), ("leak", 20), ("builtin", 20)]
 
 
 def schema_per_template_ok(exp):
@@ -1299,9 +1300,15 @@ def gen_malformed(rng, base):
     else:
         key = "formatter" if kind == "formatter" else "template"
         val = {"formatter": "gofumpt", "template": "mockery", "template-file": "file://%s/probes/nosuch.templ" % base}[kind]
-        for lv, cfg in all_levels(c):
-            cfg["ptr"].pop(key, None)
-        c["file"]["ptr"][key] = val
+        low = [cfg for lv, cfg in all_levels(c) if lv.startswith(("if:", "cf:"))]
+        if kind == "formatter" and low and rng.random() < 0.5:
+            rng.choice(low)["ptr"]["formatter"] = val      # on one interface / configs entry only
+            if expected(c)["kind"] == "ok" and all(file_outcome(c, ms) for ms in expected(c)["files"].values()):
+                c["file"]["ptr"][key] = val                 # that level produces no mock: make it global
+        else:
+            for lv, cfg in all_levels(c):
+                cfg["ptr"].pop(key, None)
+            c["file"]["ptr"][key] = val
     c["malformed"] = kind
     return c
 
